@@ -129,6 +129,7 @@ def norm(v):
 
     :SymPy: supported
     """
+    v = getvector(v)
     sum = 0
     for x in v:
         sum += x * x
@@ -162,6 +163,7 @@ def normsq(v):
 
     :SymPy: supported
     """
+    v = getvector(v)
     sum = 0
     for x in v:
         sum += x * x
@@ -193,6 +195,8 @@ def cross(u, v):
 
     :SymPy: supported
     """
+    u = getvector(u, 3)
+    v = getvector(v, 3)
     return np.r_[
         u[1] * v[2] - u[2] * v[1],
         u[2] * v[0] - u[0] * v[2],
